@@ -22,6 +22,12 @@ def parseOp (v : Json) : Except String (Op Int × Int) := do
       | some [_, r] => r
       | _ => 0
     pure (.sortBy (← getNat v "j") key, 1)
+  | "pred" =>
+    -- `t[t.f == v]` (how = "eq"), `!=` ("ne"), `np.isin(t.f, vs)` ("isin"): `vals` are the cell codes compared with
+    let vals ← getIntList v "vals"
+    let how ← getStr v "how"
+    let p : Int → Bool := fun x => if how == "ne" then !(vals.contains x) else vals.contains x
+    pure (.predMask (← getNat v "j") p, 1)
   | "replace" => pure (.replace (← getNat v "j") (← getIntList v "c"), 1)
   | "add" => pure (.addFields (← getIntListList v "new"), 1)
   | _ => throw s!"unknown op {k}"
@@ -37,6 +43,8 @@ def stepRows (st : Nat × List (List Int)) : Op Int → Option (Nat × List (Lis
   | .concatL o => if wfB o && o.length == st.1 then some (st.1, toRows o ++ st.2) else none
   | .sortBy j key =>
     if j < st.1 then (takeRows (argsort ((st.2.filterMap (fun r => r[j]?)).map key)) st.2).map (fun r => (st.1, r)) else none
+  | .predMask j p =>
+    if j < st.1 then some (st.1, st.2.filter (fun r => match r[j]? with | some x => p x | none => false)) else none
   | .replace j c =>
     if st.1 == 1 && j == 0 then some (1, c.map (fun x => [x]))      -- the only column: any length is a table
     else if j < st.1 && c.length == st.2.length then some (st.1, replaceRows j c st.2) else none
